@@ -439,19 +439,10 @@ def _bool_vals(body, l, at, R, depth):
     return vals
 
 
-def variant_reach(body, crate, adt, V, place_pred=None):
-    """Blocks reachable when the inspected value of enum `adt` is the variant V: every discriminant switch on such a
-    place keeps only the edges whose variant set contains V, and boolean flags whose reaching definitions (inside the
-    specialised graph) are all the same constant are folded too (`let b = matches!(x, A | B); if b {..}`)."""
-    avoid = set()
-    for sb, t, pl, d in discr_switches(body):
-        if head_of_type(pl.get("ty", "")) != adt:
-            continue
-        if place_pred and not place_pred(pl):
-            continue
-        for tgt, vs in edge_variants(crate, t, adt).items():
-            if V not in vs:
-                avoid.add((sb, tgt))
+def specialise(body, avoid):
+    """Fold boolean flags under a set of excluded edges: repeatedly, a switch on a bool local all of whose reaching
+    definitions inside the still-reachable part are the same constant loses its other edge. Returns (reachable, avoid)."""
+    avoid = set(avoid)
     R = body.reach([0], avoid_edges=avoid)
     for _ in range(8):
         changed = False
@@ -472,4 +463,91 @@ def variant_reach(body, crate, adt, V, place_pred=None):
         if not changed:
             break
         R = body.reach([0], avoid_edges=avoid)
-    return R
+    return R, avoid
+
+
+def variant_reach(body, crate, adt, V, place_pred=None, want_avoid=False):
+    """Blocks reachable when the inspected value of enum `adt` is the variant V: every discriminant switch on such a
+    place keeps only the edges whose variant set contains V, and boolean flags whose reaching definitions (inside the
+    specialised graph) are all the same constant are folded too (`let b = matches!(x, A | B); if b {..}`)."""
+    avoid = set()
+    for sb, t, pl, d in discr_switches(body):
+        if head_of_type(pl.get("ty", "")) != adt:
+            continue
+        if place_pred and not place_pred(pl):
+            continue
+        for tgt, vs in edge_variants(crate, t, adt).items():
+            if V not in vs:
+                avoid.add((sb, tgt))
+    R, avoid = specialise(body, avoid)
+    return (R, avoid) if want_avoid else R
+
+
+def bool_reach(body, local, value):
+    """(reachable blocks, excluded edges) when the bool local/parameter `local` has the constant `value` wherever it is
+    tested (directly or through a plain copy), with dependent flags folded."""
+    avoid = set()
+    for sb, t in body.switches():
+        if t["op"].get("k") not in ("copy", "move") or t["op"]["place"]["p"]:
+            continue
+        l = t["op"]["place"]["l"]
+        src = l
+        for _ in range(3):
+            ds = [d for d in body.defs().get(src, ()) if d["kind"] != "param"]
+            if src != local and len(ds) == 1 and ds[0]["kind"] == "assign" and ds[0]["rv"]["k"] == "use" and operand_local(ds[0]["rv"]["op"]) is not None \
+                    and not ds[0]["rv"]["op"]["place"]["p"]:
+                src = operand_local(ds[0]["rv"]["op"])
+        if src != local:
+            continue
+        zero = [tb for v, tb in t["targets"] if v == 0]
+        if not zero or zero[0] == t["otherwise"]:
+            continue
+        avoid.add((sb, zero[0]) if value else (sb, t["otherwise"]))
+    return specialise(body, avoid)
+
+
+def closures_consumed(crate, b):
+    """(closure body, consuming call, arg index) for closures constructed in b and passed to a call."""
+    out = []
+    for i, j, s in b.assigns():
+        rv = s["rv"]
+        if rv["k"] == "agg" and rv["ak"] == "closure" and rv["def"] in crate.bodies:
+            l = s["lhs"]["l"]
+            for c in b.calls():
+                for k, a in enumerate(c.args):
+                    if operand_local(a) == l and (i == c.bb or c.bb in b.reach_after(i)):
+                        out.append((crate.bodies[rv["def"]], c, k))
+    return out
+
+
+WRITE_FNS = (r"std::fmt::Write::write_char", r"std::fmt::Formatter::<'a>::write_char", r"std::fmt::Write::write_str", r"std::fmt::Formatter::<'a>::write_str")
+
+
+def repeated_writes(crate, b):
+    """Formatter writes of body b that are executed a counted number of times. Each entry:
+    dict(call, host, site, form, start, bound) — `host` is the body containing the write call (b, or a closure),
+    `site` the block of b at which the repetition happens, start/bound operands of b (range 0..n) or None.
+    Forms: 'loop' (for _ in a..b), 'closure' ((a..b).try_for_each(|_| write) / for_each)."""
+    out = []
+    ranges = [(i, s) for i, j, s in b.assigns() if s["rv"]["k"] == "agg" and str(s["rv"].get("adt", "")).endswith("::Range") and len(s["rv"]["ops"]) == 2]
+    for c in b.calls(*WRITE_FNS):
+        if b.in_loop(c.bb):
+            # the range whose iterator drives this loop: the closest Range aggregate that reaches the loop
+            cand = [(i, s) for i, s in ranges if c.bb in b.reach_after(i) or c.bb == i]
+            cand = [(i, s) for i, s in cand if not any(i2 in b.reach_after(i) and (c.bb in b.reach_after(i2)) and not b.in_loop(i2) and i2 != i for i2, s2 in cand)]
+            i, s = cand[-1] if cand else (None, None)
+            out.append({"call": c, "host": b, "site": c.bb, "form": "loop", "start": s["rv"]["ops"][0] if s else None,
+                        "bound": s["rv"]["ops"][1] if s else None, "range_bb": i})
+    for cb, k, argi in closures_consumed(crate, b):
+        if not k.matches(r"std::iter::Iterator::(try_for_each|for_each)"):
+            continue
+        rsl = b.slice_args(k, [0])
+        rng = [(i, s) for i, s in ranges if any(d.get("bb") == i and d.get("kind") == "assign" and d["rv"] is s["rv"] for d in rsl.defs)] or \
+              [(i, s) for i, s in ranges if i == k.bb or k.bb in b.reach_after(i)]
+        i, s = rng[-1] if rng else (None, None)
+        for c in cb.calls(*WRITE_FNS):
+            if cb.in_loop(c.bb):
+                continue
+            out.append({"call": c, "host": cb, "site": k.bb, "form": "closure", "start": s["rv"]["ops"][0] if s else None,
+                        "bound": s["rv"]["ops"][1] if s else None, "range_bb": i})
+    return out
